@@ -306,7 +306,13 @@ def execute(scenario, seed, overrides=None):
             stats["queries"] += 1
             if any(e["op"] == "register" and e["t_done"] is None for e in w.api_log):
                 stats["queries_during_probing"] += 1
-            known = {r.ident(): r.ttl for r in msg.answers}
+            # a record the querier lists more than once is known with the best of the TTLs it is listed with ("minus
+            # records the querier lists as known answers with more than half of that TTL")
+            known = {}
+            for r in msg.answers:
+                known[r.ident()] = max(r.ttl, known.get(r.ident(), 0))
+                if len([1 for x in msg.answers if x.ident() == r.ident()]) > 1:
+                    stats["known_answer_listed_twice"] = stats.get("known_answer_listed_twice", 0) + 1
             req, opt = [], []
             for q in msg.questions:
                 if q.type == wire.T_PTR and q.name.lower() == ENUM:
